@@ -104,7 +104,7 @@ theorem lookup_dictUpdate (old new : Changes) (k : Str) :
     | cons kv old ih =>
       obtain ⟨k1, v1⟩ := kv
       by_cases hk : k = k1
-      · subst hk; simp [List.filter_cons, hn, List.lookup_cons]
+      · subst hk; simp [hn]
       · have hb : (k == k1) = false := by simpa using hk
         simp only [List.filter_cons, List.lookup_cons, hb]
         split
@@ -283,7 +283,7 @@ theorem cloneForModule_wild (g : Opts) (secs : Sections) (qm : List Str)
     rw [List.lookup_append]
     unfold wildCache
     rw [lookup_map_self, if_pos hw]
-    simp [wildVal, List.dropLast_concat]
+    simp [wildVal]
   · have hnotc : modPat qm ++ [Part.star] ∉ (concCache g secs (concreteKeys secs)).map Prod.fst := by
       rw [concCache_keys]
       intro h
@@ -293,7 +293,7 @@ theorem cloneForModule_wild (g : Opts) (secs : Sections) (qm : List Str)
     have hss : modPat qm ++ [Part.star] ++ [Part.star] ∉ wildcardKeys secs := by
       intro h
       have := ((mem_wildKeys secs _).mp ((mem_wildcardKeys secs _).mp h)).2.1
-      simp [Pat.unstructured, List.dropLast_concat, Part.isStar] at this
+      simp [Pat.unstructured, Part.isStar] at this
     rw [cloneWith_wild_core g secs _ (modPat qm) hq n hn (wildCache_lookup_none g secs _ hw)
       (wildCache_lookup_none g secs _ hss)
       (by have := cacheOK_final g secs (modPat qm) hq [] (by simp) n (by omega); simpa using this)]
